@@ -394,13 +394,15 @@ Section Agree.
   Qed.
 
   Lemma mismatch_shape l r :
-    operand_shape sc sel root l = true -> negb (mismatch_op sc root l r) = true ->
+    operand_shape sc sel root l = true -> operand_shape sc sel root r = true -> negb (mismatch_op sc root l r) = true ->
     (exists v ch, l = OAttr v ch) ->
-    lit_mismatch sc vars l r || lit_mismatch sc vars r l = false.
+    cmp_mismatch sc vars l r = false.
   Proof.
-    intros Hl Hm [v [ch ->]]. destruct (shape_attr _ _ Hl) as [E1 _]. apply Z.eqb_eq in E1. subst v.
-    apply negb_true_iff in Hm. unfold lit_mismatch, operand_mismatch. rewrite Hvars.
-    destruct r as [v2 ch2|c| |]; simpl in *; auto. now rewrite Hm.
+    intros Hl Hr Hm [v [ch ->]]. destruct (shape_attr _ _ Hl) as [E1 _]. apply Z.eqb_eq in E1. subst v.
+    apply negb_true_iff in Hm. unfold cmp_mismatch, lit_mismatch, col_mismatch, operand_mismatch. rewrite Hvars.
+    destruct r as [v2 ch2|c| |]; simpl in *; auto.
+    - destruct (shape_attr _ _ Hr) as [E2 _]. apply Z.eqb_eq in E2. subst v2. now rewrite Hvars, Hm.
+    - now rewrite Hm.
   Qed.
   Lemma mismatch_list_shape v ch cs :
     operand_shape sc sel root (OAttr v ch) = true -> negb (existsb (mismatch_lit sc root ch) cs) = true ->
@@ -445,7 +447,7 @@ Section Agree.
       destruct (mk_cmp_sound w op e1 e2 a b C1 C2' S1 S2 Hd B2) as [p [M [PB PV]]].
       exists p, st2, (m1 ++ m2), (tv_true (eval_pred (((env ++ m1) ++ m2)) p)).
       cbn [tcond]. unfold tcmp. rewrite (teqjoin_none _ _ _ _ _ _ Hs1 Hs2), (rel_check_shape _ _ _ Hs1 Hs2). cbn [negb].
-      rewrite T1, T2, (mismatch_shape _ _ Hs1 Hmm (ex_intro _ v (ex_intro _ ch eq_refl))), (enum_check_shape _ _ _ Hs1 Hs2 Hen), M.
+      rewrite T1, T2, (mismatch_shape _ _ Hs1 Hs2 Hmm (ex_intro _ v (ex_intro _ ch eq_refl))), (enum_check_shape _ _ _ Hs1 Hs2 Hen), M.
       rewrite app_assoc.
       assert (PV' : forall more', py_cmp w op a b = Ok (tv_true (eval_pred (((env ++ m1) ++ m2) ++ more') p))).
       { intros more'. apply PV; [rewrite <- (app_assoc (env ++ m1) m2 more'); apply V1 | apply V2]. }
@@ -552,7 +554,7 @@ Proof.
     destruct (negb (rel_check sc vars (eqne op) (OAttr v ch) r)); try discriminate.
     destruct (toperand sc sel root (set_io io st) (OAttr v ch)) as [a st1| | |] eqn:E1; try discriminate.
     destruct (toperand sc sel root st1 r) as [b st2| | |] eqn:E2; try discriminate.
-    destruct (lit_mismatch sc vars (OAttr v ch) r || lit_mismatch sc vars r (OAttr v ch)); try discriminate.
+    destruct (cmp_mismatch sc vars (OAttr v ch) r); try discriminate.
     destruct (negb (eqne op) && (enum_col sc vars (OAttr v ch) || enum_col sc vars r)); try discriminate.
     assert (B1 := toperand_safe _ _ _ _ Hc1 E1). assert (B2 := toperand_safe _ _ _ _ Hc2 E2).
     destruct (mk_cmp op a b) as [p0|] eqn:Em; try discriminate. injection H as <- <-.
@@ -629,7 +631,7 @@ Proof.
     destruct (negb (rel_check sc vars (eqne op) (OAttr v ch) r)); try discriminate.
     destruct (toperand sc sel root (set_io io st) (OAttr v ch)) as [a st1| | |] eqn:E1; try discriminate.
     destruct (toperand sc sel root st1 r) as [b st2| | |] eqn:E2; try discriminate.
-    destruct (lit_mismatch sc vars (OAttr v ch) r || lit_mismatch sc vars r (OAttr v ch)); try discriminate.
+    destruct (cmp_mismatch sc vars (OAttr v ch) r); try discriminate.
     destruct (negb (eqne op) && (enum_col sc vars (OAttr v ch) || enum_col sc vars r)); try discriminate.
     destruct (mk_cmp op a b); try discriminate. injection H as _ <-.
     eapply toperand_relonly; [exact Hc2| |exact E2]. eapply (toperand_relonly (OAttr v ch) (set_io io st)); [exact Hc1|exact Hr|exact E1].
@@ -853,7 +855,7 @@ Proof.
   cbn [tcond]. unfold tcmp.
   rewrite teqjoin_lit_none. destruct (negb (rel_check sc (q_vars q) (eqne op) (OAttr v ch) (OLit VNull))); try discriminate.
   destruct (toperand sc (q_sel q) root (set_io false jm0) (OAttr v ch)) as [a st1| | |]; try discriminate.
-  cbn [toperand]. destruct (lit_mismatch _ _ _ _ || _); try discriminate. destruct (negb (eqne op) && _); try discriminate.
+  cbn [toperand]. destruct (cmp_mismatch _ _ _ _); try discriminate. destruct (negb (eqne op) && _); try discriminate.
   destruct op; try discriminate; cbn [mk_cmp]; discriminate.
 Qed.
 
@@ -902,7 +904,7 @@ Proof.
     cbn [tcond]. unfold tcmp. rewrite (teqjoin_none sc sel root vars io (set_io io st) op v ch r Hc1 Hc2), (rel_check_shape sc sel root vars Hvars _ _ _ Hc1 Hc2).
     cbn [negb]. destruct (toperand_total _ (set_io io st) Hc1) as [a [st1 [T1 A1]]]. rewrite T1.
     destruct (toperand_total _ st1 Hc2) as [b [st2 [T2 A2]]]. rewrite T2.
-    rewrite (mismatch_shape sc sel root vars Hvars _ _ Hc1 Hmm (ex_intro _ v (ex_intro _ ch eq_refl))).
+    rewrite (mismatch_shape sc sel root vars Hvars _ _ Hc1 Hc2 Hmm (ex_intro _ v (ex_intro _ ch eq_refl))).
     rewrite (enum_check_shape sc sel root vars Hvars _ _ _ Hc1 Hc2 Hen).
     destruct (mk_cmp_total op a b r A1 A2 Hn) as [p M].
     { destruct r; try discriminate; eauto. }
